@@ -266,43 +266,45 @@ def longRepOne (E : Env) (cur q avail anyRep : Nat) (a : OA) (startLen : Nat) (r
 def calcLongRepPrices (E : Env) (a : OA) (cur q avail anyRep : Nat) : OA × Nat :=
   (List.range E.P.reps).foldl (fun r rep => longRepOne E cur q avail anyRep r.1 r.2 rep) (a, E.P.matchLenMin)
 
-/-- the shortening at the head of `calc_normal_match_prices`: `if matches.len[count - 1] > avail { count = 0;
-    while matches.len[count] < avail { count += 1 }; matches.len[count] = avail; count += 1 }` -/
-def shortenMatches (ms : Array Match) (avail : Nat) : Array Match :=
-  if (ms.getD (ms.size - 1) (0, 0)).1 > avail then
-    let keep := ms.takeWhile fun m => m.1 < avail
-    keep.push (avail, (ms.getD keep.size (0, 0)).2)
-  else ms
+/-- `count = 0; while matches.len[count] < avail { count += 1 }; matches.len[count] = avail; count += 1` on the match
+    list (reached only when the last length exceeds `avail`, so the `while` stops inside the list) -/
+def shortenList (avail : Nat) : List Match → List Match
+  | [] => []
+  | m :: rest => if m.1 < avail then m :: shortenList avail rest else [(avail, m.2)]
 
-/-- `while start_len > matches.len[_match] { _match += 1 }` -/
-def firstAtLeast (ms : Array Match) (len : Nat) : Nat → Nat → Nat
-  | 0, i => i
-  | n + 1, i => if len > (ms.getD i (0, 0)).1 then firstAtLeast ms len n (i + 1) else i
+/-- the shortening at the head of `calc_normal_match_prices`: `if matches.len[count - 1] > avail { … }` -/
+def shortenMatches (ms : List Match) (avail : Nat) : List Match :=
+  if (ms.getLast?.getD (0, 0)).1 > avail then shortenList avail ms else ms
 
-/-- the `loop { … }` of `calc_normal_match_prices` -/
-def normalMatchLoop (E : Env) (ms : Array Match) (cur q avail posState nmp : Nat) :
-    Nat → Nat → Nat → OA → OA
+/-- `while start_len > matches.len[_match] { _match += 1 }`: the matches from index `_match` on -/
+def dropShort (len : Nat) : List Match → List Match
+  | [] => []
+  | m :: rest => if len > m.1 then dropShort len rest else m :: rest
+
+/-- the `loop { … }` of `calc_normal_match_prices`; the list holds `matches[_match ..]` -/
+def normalMatchLoop (E : Env) (cur q avail posState nmp : Nat) : Nat → Nat → List Match → OA → OA
   | 0, _, _, a => a
-  | fuel + 1, len, m, a =>
-    let dist := (ms.getD m (0, 0)).2
+  | _, _, [], a => a
+  | fuel + 1, len, m :: rest, a =>
+    let dist := m.2
     let malp := matchAndLenPrice E.pt nmp dist len posState
     let a := a.offer (cur + len) malp fun o => o.set1 malp cur ((dist : Int) + (E.P.reps : Int))
-    if len ≠ (ms.getD m (0, 0)).1 then normalMatchLoop E ms cur q avail posState nmp fuel (len + 1) m a
+    if len ≠ m.1 then normalMatchLoop E cur q avail posState nmp fuel (len + 1) (m :: rest) a
     else
       let a := offerComposite E a cur q avail len dist malp (stMatch (oat a.opts cur).c.state) ((dist : Int) + (E.P.reps : Int))
-      if m + 1 = ms.size then a
-      else normalMatchLoop E ms cur q avail posState nmp fuel (len + 1) (m + 1) a
+      -- `_match += 1; if _match == count { break }`
+      if rest = [] then a
+      else normalMatchLoop E cur q avail posState nmp fuel (len + 1) rest a
 
 /-- `calc_normal_match_prices(encoder, pos, pos_state, avail, any_match_price, start_len)` (`matches.count > 0`) -/
 def calcNormalMatchPrices (E : Env) (a : OA) (ms0 : List Match) (cur q avail anyMatch startLen : Nat) : OA :=
-  let ms := shortenMatches ms0.toArray avail
-  let last := (ms.getD (ms.size - 1) (0, 0)).1
+  let ms := shortenMatches ms0 avail
+  let last := (ms.getLast?.getD (0, 0)).1
   if last < startLen then a
   else
     let a := a.extend E.P (cur + last)
     let nmp := normalMatchPrice E.ps anyMatch (oat a.opts cur).c.state
-    let m := firstAtLeast ms startLen ms.size 0
-    normalMatchLoop E ms cur q avail (E.posState q) nmp (last + 1) startLen m a
+    normalMatchLoop E cur q avail (E.posState q) nmp (last + 1) startLen (dropShort startLen ms) a
 
 /-! ## `convert_opts` and the pending symbols -/
 
@@ -358,16 +360,18 @@ def repLens (P : NormalParams) (d : Array UInt8) (p avail : Nat) (c : Coder) : L
 def repBest (lens : List Nat) : Nat :=
   (List.range lens.length).foldl (fun best rep => if lens.getD rep 0 > lens.getD best 0 then rep else best) 0
 
-/-- the loop over normal matches in the first part of `get_next_symbol` -/
-def firstMatchLoop (E : Env) (ms : Array Match) (posState nmp : Nat) : Nat → Nat → Nat → OA → OA
+/-- the loop over normal matches in the first part of `get_next_symbol`; the list holds `matches[i ..]` -/
+def firstMatchLoop (E : Env) (posState nmp : Nat) : Nat → Nat → List Match → OA → OA
   | 0, _, _, a => a
-  | fuel + 1, len, i, a =>
-    let dist := (ms.getD i (0, 0)).2
+  | _, _, [], a => a
+  | fuel + 1, len, m :: rest, a =>
+    let dist := m.2
     let price := matchAndLenPrice E.pt nmp dist len posState
     let a := a.offer len price fun o => o.set1 price 0 ((dist : Int) + (E.P.reps : Int))
-    if len = (ms.getD i (0, 0)).1 then
-      if i + 1 = ms.size then a else firstMatchLoop E ms posState nmp fuel (len + 1) (i + 1) a
-    else firstMatchLoop E ms posState nmp fuel (len + 1) i a
+    if len = m.1 then
+      -- `i += 1; if i == count { break }`
+      if rest = [] then a else firstMatchLoop E posState nmp fuel (len + 1) rest a
+    else firstMatchLoop E posState nmp fuel (len + 1) (m :: rest) a
 
 /-- what a run of the optimiser leaves behind -/
 structure Step (σ : Type) where
@@ -449,8 +453,8 @@ def optimise {σ : Type} (F : Finder σ) (E : Env) (p : Nat) (c : Coder) (opts :
   let a :=
     if len ≤ mainLen then
       let nmp := normalMatchPrice E.ps anyMatch c.state
-      let msA := ms.toArray
-      firstMatchLoop E msA posState nmp (mainLen + 1) len (firstAtLeast msA len msA.size 0) a
+      -- `let mut i = 0; while len > matches.len[i] { i += 1 }`
+      firstMatchLoop E posState nmp (mainLen + 1) len (dropShort len ms) a
     else a
   -- `avail = min(get_avail(), OPTS - 1)`
   let avail0 := min (d.size - p) (P.opts - 1)
